@@ -69,7 +69,7 @@ class Graph:
         self.states.add((to, th))
 
 
-def emit_graph(module_file, cfg_text, ctx, name, timeout=1200):
+def emit_graph(module_file, cfg_text, ctx, name, timeout=1200, injective=True):
     """Run the *_emit configuration (workers 1: PrintT lines must not interleave) and build the graph."""
     g = Graph()
 
@@ -83,6 +83,9 @@ def emit_graph(module_file, cfg_text, ctx, name, timeout=1200):
         raise tlc.MachineryError("edge emission for %s failed: %s %s" % (name, res.violated, res.errors[:3]))
     if g.n_edges == 0:
         raise tlc.MachineryError("edge emission for %s produced no edges" % name)
+    if injective and len(g.states) != res.distinct:
+        raise tlc.MachineryError("%s: the projection (Obs, Hid) is not injective on the reachable states (%d projected, %d states)"
+                                 % (name, len(g.states), res.distinct))
     return g, res
 
 
